@@ -42,6 +42,9 @@ TRACE_TAIL = "CONSTRAINT HWM\nPOSTCONDITION Accepted\n"
 RL_TRACE_CFG = ("SPECIFICATION TSpec\nCONSTANTS\n  Policies = {}\n  Gaps = {}\n  Counts = {}\n  MaxNow = 0\n  MaxArr = 0\n"
                 "  WithSetState = FALSE\n" + TRACE_TAIL +
                 "INVARIANTS PerPeriodBound\nPROPERTIES WaitBound ImmediateIfSpare RejectOnlyIfFull\n")
+# MultiRateLimiter with a timeout > 0: the reply-level clause only (see "Scope" in RateLimiter.tla)
+RLW_TRACE_CFG = ("SPECIFICATION TSpec\nCONSTANTS\n  Policies = {}\n  Gaps = {}\n  Counts = {}\n  MaxNow = 0\n  MaxArr = 0\n"
+                 "  WithSetState = FALSE\n" + TRACE_TAIL + "PROPERTIES WaitBound\n")
 MQ_TRACE_CFG = ("SPECIFICATION TSpec\nCONSTANTS\n  Policies = {}\n  Gaps = {}\n  Counts = {}\n  MaxNow = 0\n  MaxArr = 0\n"
                 "  KeepHist = FALSE\n" + TRACE_TAIL + "PROPERTIES MqttAdmitIfSpare MqttRejectOnlyIfFull\n")
 REL_TRACE_CFG = "SPECIFICATION TSpec\n" + TRACE_TAIL + "INVARIANTS PerPeriodBound\n"
@@ -67,7 +70,9 @@ def run(ctx):
         "(any k periods: admitted tokens < k*rate + last packet), i.e. the excess of an oversized packet is a debt paid off at one rate per "
         "period, and a packet must be admitted iff no debt has reached its rate; mqttproxy harness moves the limiter's private startTime to "
         "let time pass and brackets each call with real-clock readings (cycle known up to an interval, TLC searches)",
-        "MultiRateLimiter is claimed for timeout 0 only (its only use in easegress)",
+        "MultiRateLimiter: all clauses for timeout 0 (its only use in easegress); with a timeout > 0 only 'no admitted request is made "
+        "to wait longer than timeoutDuration' (a statement about the reply alone) - the per-period clauses are not claimed there "
+        "(the unchanged code charges each dimension to its own first free cycle: lead, outside the quantifier)",
     ]
     phases = [("mc", _mc), ("mbt", _mbt), ("tv", _tv), ("ctv", _ctv), ("filter", _filter), ("mqtt", _mqtt)]
     if not ctx.quick:
@@ -101,6 +106,8 @@ def _mc(ctx):
          "MultiRateLimiter, timeout 0"),
         ("RateLimiter_Gen", rl_cfg("GSpec", "GridA", "GapsS", "One", 20 if q else 30, 4 if q else 6, setstate=True),
          "with SetState(disabled/normal)"),
+        ("RateLimiter_Gen", rl_cfg("GSpec", "GridMW", "GapsS", "MW", 24 if q else 40, 5 if q else 8, view=False, clauses=False)
+         + "VIEW viewW\nINVARIANTS TypeOK\nPROPERTIES WaitBound\n", "MultiRateLimiter, timeout > 0: wait <= timeout"),
         ("RateLimiterMqtt_Gen", mq_cfg("GSpec", 30, 6 if q else 8), "MQTT form: token arithmetic = carried debt"),
         ("RateLimiterMqtt_Gen", mq_cfg("GSpec", 14 if q else 18, 6 if q else 7, hist=True), "MQTT form: carried debt => WindowBound (history in the state)"),
         ("RateLimiterFilter_Gen", fl_cfg(5 if q else 7, 2 if q else 3), "filter: first match, 429, reload carry-over"),
@@ -199,20 +206,26 @@ def _validate(ctx, module, cfg, events, name, kind, what, sig_extra=None, count_
 # ------------------------------------------------------------------------------------------ MBT
 def _mbt(ctx):
     q = ctx.quick
-    nA, nM, depth = (220, 110, 30) if q else (3000, 1500, 40)
+    nA, nM, nW, depth = (220, 110, 110, 30) if q else (3000, 1500, 1500, 40)
     simA = ("SPECIFICATION GSpecS\nCONSTANTS\n  Policies <- GridAB\n  Gaps <- GapsL\n  Counts <- One\n  MaxNow = 1000000\n"
             "  MaxArr = 1000000\n  WithSetState = FALSE\n")
     simM = ("SPECIFICATION GSpec\nCONSTANTS\n  Policies <- GridQ\n  Gaps <- GapsD\n  Counts <- CountsD\n  MaxNow = 1000000\n  MaxArr = 1000000\n"
             "  KeepHist = FALSE\n")
-    with ThreadPoolExecutor(max_workers=2) as ex:
+    # MultiRateLimiter with a timeout > 0 (2 and 3 dimensions), bursts (gap 0) included
+    simW = ("SPECIFICATION GSpec\nCONSTANTS\n  Policies <- GridMW\n  Gaps <- GapsS\n  Counts <- MW\n  MaxNow = 1000000\n"
+            "  MaxArr = 1000000\n  WithSetState = FALSE\n")
+    with ThreadPoolExecutor(max_workers=3) as ex:
         fa = ex.submit(ctx.tlc_simulate, "RateLimiter_Gen", simA, nA, depth)
         fm = ex.submit(ctx.tlc_simulate, "RateLimiterMqtt_Gen", simM, nM, depth)
-        behsA, behsM = fa.result(), fm.result()
-    behs = behsA + behsM
+        fw = ex.submit(ctx.tlc_simulate, "RateLimiter_Gen", simW, nW, depth)
+        behsA, behsM, behsW = fa.result(), fm.result(), fw.result()
+    behs = behsA + behsM + behsW
     has = lambda f: any(f(st) for b in behsA for st in b[1:])
     if not (has(lambda st: st.get("a") == "arr" and not st["ok"]) and has(lambda st: st.get("a") == "arr" and st["ok"] and st["w"] > 0)
             and has(lambda st: st.get("a") == "en")):
         ctx.inconclusive("generated behaviours contain no rejection / no wait / no SetState (vacuous)")
+    if _multi_pressure(behsW, lambda b: b[0]["pol"], lambda st: st.get("a") == "arr") < (10 if q else 100):
+        ctx.inconclusive("generated MultiRateLimiter behaviours: too few with waits followed by a rejection under a horizon of >= 2 periods (vacuous)")
     inp = ctx.path("c09_behs.ndjson")
     with open(inp, "w") as fh:
         for b in behs:
@@ -226,21 +239,47 @@ def _mbt(ctx):
         ctx.inconclusive("C09 replay harness failed:\n" + out[-3000:])
     mism = [x for x in recs if x.get("k") == "mismatch"]
     # what the real code answered, validated against the contracts
-    evA = [{k: v for k, v in e.items() if k != "b"} for e in obs if e["b"] < len(behsA)]
-    evM = _to_mqtt([e for e in obs if e["b"] >= len(behsA)])
+    nAM = len(behsA) + len(behsM)
+    strip = lambda e: {k: v for k, v in e.items() if k != "b"}
+    evA = [strip(e) for e in obs if e["b"] < len(behsA)]
+    evM = _to_mqtt([e for e in obs if len(behsA) <= e["b"] < nAM])
+    evW = [strip(e) for e in obs if e["b"] >= nAM]
     okA = _validate(ctx, "RateLimiter_Trace", RL_TRACE_CFG, evA, "c09_mbt_rl", "mbt",
                     "replaying a TLC-generated arrival sequence, the real RateLimiter gave a reply the contract forbids")
     okM = _validate(ctx, "RateLimiterMqtt_Trace", MQ_TRACE_CFG, evM, "c09_mbt_mqtt", "mbt-mqtt",
                     "replaying a TLC-generated packet sequence, the real limiter (timeout 0, request/byte form) gave a reply the MQTT contract forbids")
+    okW = _validate(ctx, "RateLimiter_Trace", RLW_TRACE_CFG, evW, "c09_mbt_multi", "mbt-multi",
+                    "replaying a TLC-generated arrival sequence, the real MultiRateLimiter (timeout > 0) admitted a request with a wait "
+                    "longer than timeoutDuration")
     ctx.sample({"kind": "tlc-behaviour", "steps": behsA[0][:6]})
-    if mism and okA and okM:
+    if mism and okA and okM and okW:
         # the real code differs from the implementation-shaped model but stays within the contract:
         # not a violation of C09 (the model has to be brought up to date)
         ctx.notes.append("implementation-shaped layer out of date: %d of %d replayed behaviours differ from the token arithmetic of the "
                          "model while satisfying the contract, e.g. %s" % (len(mism), len(behs), mism[0]["what"]))
         ctx.log("NOTE: %d behaviours deviate from the implementation-shaped model but satisfy the contract" % len(mism))
-    ctx.log("MBT: %d behaviours (%d limiter, %d MQTT form), %d steps, %d deviations from the model" % (
-        len(behs), len(behsA), len(behsM), summ[0]["steps"], len(mism)))
+    ctx.log("MBT: %d behaviours (%d limiter, %d MQTT form, %d multi with timeout), %d steps, %d deviations from the model" % (
+        len(behs), len(behsA), len(behsM), len(behsW), summ[0]["steps"], len(mism)))
+
+
+def _multi_pressure(seqs, pol_of, is_arr):
+    """number of arrival sequences at a multi-dimensional limiter whose horizon spans >= 2 periods (T >= P) in which some
+    request was admitted with a wait and a later one was rejected: every dimension's horizon matters there"""
+    n = 0
+    for sq in seqs:
+        pol = pol_of(sq)
+        if not (isinstance(pol.get("L"), list) and len(pol["L"]) >= 2 and pol.get("T", 0) >= pol["P"]):
+            continue
+        waited = False
+        for st in sq[1:]:
+            if not is_arr(st):
+                continue
+            if st["ok"] and st["w"] > 0:
+                waited = True
+            elif not st["ok"] and waited:
+                n += 1
+                break
+    return n
 
 
 # ------------------------------------------------------------------------------------------ TV (sequential)
@@ -260,6 +299,14 @@ def _tv(ctx):
     evm = _to_mqtt(rec(1))
     _validate(ctx, "RateLimiterMqtt_Trace", MQ_TRACE_CFG, evm, "c09_tv_mqtt", "trace-mqtt",
               "recorded history of the real request/byte limiter (timeout 0) violates the MQTT contract")
+    evw = rec(2)
+    if _validate(ctx, "RateLimiter_Trace", RLW_TRACE_CFG, evw, "c09_tv_multi", "trace-multi",
+                 "recorded history of the real MultiRateLimiter (2-3 dimensions, timeout > 0): an admitted request was made to wait "
+                 "longer than timeoutDuration"):
+        k = _multi_pressure(_split(evw), lambda tr: tr[0]["pol"], lambda e: e.get("ev") == "arr")
+        if k < (5 if ctx.quick else 30):
+            ctx.inconclusive("c09_tv_multi: only %d recorded MultiRateLimiter traces with a horizon of >= 2 periods show waits followed by a "
+                             "rejection (vacuous)" % k)
 
 
 # ------------------------------------------------------------------------------------------ TV (concurrent)
